@@ -522,6 +522,20 @@ def vc_array_handle():
                         it.oblige(st2, "post", f"out_of_range_index_raises[{lab}]", z3.BoolVal(bool(raised)))
                 except XB.FlatViewTupleIndex:
                     pass  # reported once above
+                # a bare integer on an array of rank >= 2, at or beyond the extent of the first axis: outside the shape whatever the
+                # other extents are (C11; an integer below that extent is the recorded finding "index of the wrong rank accepted")
+                if rank > 1 and static_items:
+                    for fn in ("Array._get_offset", "Array.__getitem__"):
+                        sti = st.clone()
+                        ii = fresh_int("int_index")
+                        sti.assume(z3.Or(ii >= hdr_shape[0], ii < 0))
+                        hi = it._relocate(sti, h)
+                        try:
+                            for st2, res in it.call_function(sti, FuncVal(ARR, fn, hi), [ii], {}, None):
+                                raised = res is not None and getattr(st2, "pending_raise", None) is not None and res.__class__.__name__ == "_NoReturn"
+                                it.oblige(st2, "post", f"integer_index_beyond_first_axis_raises[{lab}:{fn.split('.')[-1]}]", z3.BoolVal(bool(raised)))
+                        except XB.FlatViewTupleIndex:
+                            pass
             obs += it.obligations
     vc_array_handle.interps = its
     return obs
